@@ -670,8 +670,8 @@ def run(ctx):
     for nm in allnames:
         cases.append({'kind': 'layout', 'symbol': nm})
     cases.append({'kind': 'equalities'})
-    seeds = sorted(set([0, 1, 2, 3, ctx.seed]))
-    cases.append({'kind': 'hashseed', 'alphabet': alpha if ctx.quick else allnames, 'seeds': seeds})
+    seeds = sorted(set([0, 1, 2, 3, ctx.seed])) if ctx.quick else sorted(set(list(range(8)) + [ctx.seed]))
+    cases.append({'kind': 'hashseed', 'alphabet': alpha, 'seeds': seeds})
     ctx.note('alphabet: %d symbols (closure BFS over %d of them with state cap %d per first symbol; depth-2 exploration over all%s)' %
              (len(allnames), len(alpha), cap, '' if ctx.quick else ', depth 3 from the %d stateful ones' % len(stateful)))
     explore.pmap(ctx, _dispatch, cases, chunk=1)
